@@ -24,6 +24,7 @@ import multiprocessing
 import os
 import random
 import tempfile
+import time
 from fractions import Fraction
 
 from .common import import_ckl, MachineryError
@@ -259,33 +260,44 @@ _TAB = None          # the TLC month table, inherited by the forked pool workers
 
 
 def _worker(chunk):
-    """One chunk of jobs -> (violations, evaluations, trace events, trace meta)."""
+    """One chunk of jobs -> (violations, evaluations, trace events, trace meta,
+    cpu seconds by job kind)."""
     global _IT
     if _IT is None:
         _IT = Interpreter(True, False)
     out = []
     cnt = 0
     events, meta = [], []
+    cpu = {}
     for job in chunk:
-        if job[0] == "month":
-            # every day of one month, direct conversions only, seeded times of day
-            _tag, y, m, n0, ln, seed = job
-            r = random.Random(seed)
-            for d in range(1, ln + 1):
-                o, c = check_day(None, y, m, d, n0 + d - 1, r.randrange(86400), [], "direct")
-                out += o
-                cnt += c
-        elif job[0] == "traces":
-            _tag, seed, count = job
-            e, mt = record_traces(random.Random(seed), count, _TAB)
-            events += e
-            meta += mt
-        else:
-            (y, m, d, n, s, offs, mode) = job
-            o, c = check_day(_IT, y, m, d, n, s, offs, mode)
+        t0 = time.process_time()
+        kind = job[0] if isinstance(job[0], str) else job[-1]
+        cnt += _run_job(job, out, events, meta)
+        cpu[kind] = cpu.get(kind, 0.0) + time.process_time() - t0
+    return out, cnt, events, meta, cpu
+
+
+def _run_job(job, out, events, meta):
+    cnt = 0
+    if job[0] == "month":
+        # every day of one month, direct conversions only, seeded times of day
+        _tag, y, m, n0, ln, seed = job
+        r = random.Random(seed)
+        for d in range(1, ln + 1):
+            o, c = check_day(None, y, m, d, n0 + d - 1, r.randrange(86400), [], "direct")
             out += o
             cnt += c
-    return out, cnt, events, meta
+    elif job[0] == "traces":
+        _tag, seed, count = job
+        e, mt = record_traces(random.Random(seed), count, _TAB)
+        events += e
+        meta += mt
+    else:
+        (y, m, d, n, s, offs, mode) = job
+        o, c = check_day(_IT, y, m, d, n, s, offs, mode)
+        out += o
+        cnt += c
+    return cnt
 
 
 def run_jobs(run, jobs, chunk):
@@ -299,12 +311,16 @@ def run_jobs(run, jobs, chunk):
         results = [_worker(c) for c in chunks]
     total = 0
     events, meta = [], []
-    for out, cnt, ev, mt in results:
+    cpu = {}
+    for out, cnt, ev, mt, c in results:
         total += cnt
         events += ev
         meta += mt
+        for k, v in c.items():
+            cpu[k] = cpu.get(k, 0.0) + v
         for key, what, case in out:
             run.violation(key, what, case)
+    run.cov["impl_cpu_seconds_by_job_kind"] = {k: round(v, 1) for k, v in sorted(cpu.items())}
     return total, events, meta
 
 
